@@ -4,7 +4,12 @@ QV.Model.DataLoad — model of `qucumber/utils/data.py`:
 part of `np.loadtxt(path, dtype=…, ndmin=…)` those loaders rely on (default `comments='#'`,
 `delimiter=None`): lines → comment stripped → whitespace-separated tokens → rows, blank lines skipped,
 "number of columns changed" `ValueError`, and `_ensure_ndmin_ndarray` (squeeze of one-row / one-column
-tables; `ndmin=1` for `bases_path`).
+tables for `ndmin=0`; `ndmin=1` for `bases_path`; NO squeeze for `ndmin=2`).
+
+The loaders are modelled AS THEY ARE AFTER THE PROPOSED FIX F16 (`proposed/F16_loadtxt_ndmin.diff`): the samples
+file and the `tr_bases_path` file are read with `ndmin=2` (always 2-D, shape `(N, n)` also for `N = 1` or `n = 1`);
+the target files keep the default `ndmin=0` (a target has `2^n ≥ 2` rows and `≥ 2` columns) and `bases_path`
+keeps `ndmin=1` (the word form of tutorial 3: one basis word per line gives a 1-D array of words).
 
 A file is its content as a `List Char` (text mode; the driver converts `String.toList`).
 Tokens are `List Char`.  The decimal → float64 parser of numpy is NOT modelled: it is the parameter
@@ -86,6 +91,20 @@ def shapeTable {τ : Type} (ndmin1 : Bool) (rows : List (List τ)) : Except PyEr
 def loadtxtStr (ndmin1 : Bool) (cs : List Char) : Except PyErr (Arr Token) :=
   shapeTable ndmin1 (tokenize cs)
 
+/-- shape logic of `np.loadtxt(…, ndmin=2)` on the token rows: `_ensure_ndmin_ndarray` does not squeeze
+(`ndim (= 2) > ndmin` is false), so an `N × m` table keeps its shape `(N, m)` for every `N, m ≥ 1`; the empty file
+gives shape `(0, 1)` (`mat []`, the column count of an empty `mat` is not tracked); ragged → `ValueError`. -/
+def shapeTable2 {τ : Type} (rows : List (List τ)) : Except PyErr (Arr τ) :=
+  match rows with
+  | [] => .ok (.mat [])
+  | r0 :: rest =>
+    if rest.all (fun r => r.length == r0.length) then .ok (.mat (r0 :: rest))
+    else .error .ValueError
+
+/-- `np.loadtxt(path, dtype=str, ndmin=2)` (`tr_bases_path` after F16) -/
+def loadtxtStr2 (cs : List Char) : Except PyErr (Arr Token) :=
+  shapeTable2 (tokenize cs)
+
 /-- convert every token of a row; `none` = numpy's "could not convert string … to float32" -/
 def convertRow {ν : Type} (parse : Token → Option ν) (round : ν → ν) : List Token → Except PyErr (List ν)
   | [] => .ok []
@@ -117,6 +136,13 @@ def loadtxtNum {ν : Type} (parse : Token → Option ν) (round : ν → ν) (cs
   | .error e => .error e
   | .ok rows => shapeTable false rows
 
+/-- `torch.tensor(np.loadtxt(path, dtype="float32", ndmin=2), dtype=torch.double)` (the samples file after F16):
+as `loadtxtNum`, without the squeeze. -/
+def loadtxtNum2 {ν : Type} (parse : Token → Option ν) (round : ν → ν) (cs : List Char) : Except PyErr (Arr ν) :=
+  match convertRows parse round (tokenize cs) with
+  | .error e => .error e
+  | .ok rows => shapeTable2 rows
+
 /-- single-precision rounding of a double, as a double -/
 def roundF32 (x : Float) : Float := x.toFloat32.toFloat
 
@@ -146,10 +172,18 @@ def optStr {ν : Type} (ndmin1 : Bool) : Option (List Char) → Except PyErr (Li
     | .error e => .error e
     | .ok a => .ok [Item.str a]
 
+/-- the per-sample bases table: `if tr_bases_path is not None: data.append(np.loadtxt(path, dtype=str, ndmin=2))` -/
+def optStr2 {ν : Type} : Option (List Char) → Except PyErr (List (Item ν))
+  | none => .ok []
+  | some f =>
+    match loadtxtStr2 f with
+    | .error e => .error e
+    | .ok a => .ok [Item.str a]
+
 /-- optional trailing string tables shared by both loaders (`data.py:50-56`, `106-111`):
-`tr_bases_path` with `ndmin=0`, then `bases_path` with `ndmin=1`. -/
+`tr_bases_path` with `ndmin=2` (F16), then `bases_path` with `ndmin=1`. -/
 def loadBases {ν : Type} (trBases bases : Option (List Char)) : Except PyErr (List (Item ν)) :=
-  match optStr false trBases with
+  match optStr2 trBases with
   | .error e => .error e
   | .ok l1 =>
     match optStr true bases with
@@ -169,10 +203,11 @@ def optPsi {ν : Type} [Inhabited ν] (parse : Token → Option ν) (round : ν 
       | .ok it => .ok [it]
 
 /-- `load_data(tr_samples_path, tr_psi_path, tr_bases_path, bases_path)`: `[samples, target_psi?, tr_bases?, bases?]`
-in this order, files read in this order (so the first failing file determines the error). -/
+in this order, files read in this order (so the first failing file determines the error). The samples are read
+with `ndmin=2` (F16), the target with the default `ndmin=0`. -/
 def loadData {ν : Type} [Inhabited ν] (parse : Token → Option ν) (round : ν → ν)
     (samples : List Char) (psi trBases bases : Option (List Char)) : Except PyErr (List (Item ν)) :=
-  match loadtxtNum parse round samples with
+  match loadtxtNum2 parse round samples with
   | .error e => .error e
   | .ok s =>
     match optPsi parse round psi with
@@ -204,7 +239,7 @@ def combineDM {ν : Type} : Option (Arr ν) → Option (Arr ν) → Except PyErr
 then the both-or-neither test, then the bases files. -/
 def loadDataDM {ν : Type} (parse : Token → Option ν) (round : ν → ν)
     (samples : List Char) (mtxReal mtxImag trBases bases : Option (List Char)) : Except PyErr (List (Item ν)) :=
-  match loadtxtNum parse round samples with
+  match loadtxtNum2 parse round samples with
   | .error e => .error e
   | .ok s =>
     match optNum parse round mtxReal with
